@@ -123,6 +123,8 @@ def run_job(job):
     pts = []
     for p in job["points"]:
         r = {}
+        if pts == []:
+            kept = []       # (returned object, its values when returned): must not change when the filter is used again
         state = ekf.State(**p["state"])
         control = ekf.Control(**p["control"])
         Pd = np.array(p["P"], dtype=float)
@@ -130,6 +132,8 @@ def run_job(job):
         snap = (state.data.copy(), cov.data.copy(), control.data.copy(), copy.deepcopy(ekf.process_noise))
         try:
             nxt = ekf.process_model(float(p["dt"]), state, cov, control)
+            kept.append((nxt.state, nxt.state.data.copy()))
+            kept.append((nxt.covariance, nxt.covariance.data.copy()))
             again = ekf.process_model(float(p["dt"]), state, cov, control)
             r["predict"] = {
                 "state": {str(n): float(v) for n, v in zip(ekf.arglist_state, nxt.state.data[:, 0])},
@@ -205,6 +209,7 @@ def run_job(job):
             r["oracle"] = {"_failed": type(e).__name__ + ": " + str(e)[:200]}
         pts.append(r)
     out["points"] = pts
+    out["results_stable"] = bool(all(np.array_equal(o.data, v, equal_nan=True) for o, v in kept)) if pts else True
     return out
 
 
